@@ -16,7 +16,10 @@ Record hs := mkHs {
   h_op : hop;
   h_outs : list out;                (* observed on the implementation, in order *)
   h_dkeys : list (addr * N);        (* addrMap keys that are new (or map to another list) after the operation *)
-  h_drecs : list (N * rlist)        (* RemoteLists that are new or changed, complete *)
+  h_drecs : list (N * rlist);       (* RemoteLists that are new or changed, complete *)
+  (* Some l: before this operation the configuration was reloaded (the real LightHouse.reload through the config
+     reload callback) with lighthouse.hosts = l; the gate is judged against the configuration in force at delivery *)
+  h_reload : option (list addr)
 }.
 
 Inductive case := CHist (c : cfg) (init : state) (steps : list hs).
@@ -230,6 +233,7 @@ Fixpoint walk (c : cfg) (wf : bool) (orc : list orec) (ms is_ : state) (steps : 
   match steps with
   | [] => []
   | s :: r =>
+      let c := match h_reload s with Some l => mkCfg (c_am c) l (c_nets c) (c_v1 c) (c_respond c) | None => c end in
       let '(ms', mo) := hstep c ms (h_op s) in
       let d := apply_delta is_ s in
       let orc' := oracle_of (h_op s) ++ orc in
